@@ -335,6 +335,322 @@ def c13(res, tier, seed, deep):
     return "legal positions from play and few-men endgames (terminal ones included); for each: both perspectives on the position and on its mirror image (ranks flipped, colours, side to move, castling rights and en-passant square swapped); spec: white = -black and mirror equality, exactly"
 
 
+# ------------------------------------------------------------------------------------------------
+# search properties
+
+MIDGAME = [
+    "r3k2r/p1ppqpb1/bn2pnp1/3PN3/1p2P3/2N2Q1p/PPPBBPPP/R3K2R w KQkq - 0 1",
+    "r4rk1/1pp1qppp/p1np1n2/2b1p1B1/2B1P1b1/P1NP1N2/1PP1QPPP/R4RK1 w - - 0 10",
+    "rnbq1k1r/pp1Pbppp/2p5/8/2B5/8/PPP1NnPP/RNBQK2R w KQ - 1 8",
+    "r1bqkb1r/pppp1ppp/2n2n2/4p2Q/2B1P3/8/PPPP1PPP/RNB1K1NR w KQkq - 4 4",
+    "2kr3r/ppp2ppp/2n5/8/8/2N5/PPP2PPP/2KR3R w - - 10 15",
+]
+
+
+def parse_events(out):
+    """[(eval, [raws])] for best events, progress list, flags"""
+    bests, progs = [], []
+    for tok in out.split(" "):
+        if tok.startswith("best:"):
+            _, ev, line = tok.split(":")
+            bests.append((int(ev), [r for r in line.split(",") if r]))
+        elif tok.startswith("prog:"):
+            progs.append(tok)
+    return bests, progs
+
+
+def check_lines(res, pid, req_fen_outs, want_report=True, mate_oracle=True):
+    """spec checks on search outputs: every reported line legal and non-empty, at least one report,
+    winning terminal evaluations are true mates. req_fen_outs: [(request, fen, impl_out, has_moves)]"""
+    lreqs, owners = [], []
+    for req, fen, out, has_moves in req_fen_outs:
+        if out in ("panic", "<no-output>") or out.startswith("search-thread-panicked") or out.startswith("not-joined"):
+            res.add(req + " #outcome", out, out, "ends-normally", lambda x: x)
+            continue
+        res.add(req + " #outcome", "ends-normally", "ends-normally", "ends-normally", None)
+        bests, progs = parse_events(out)
+        if has_moves and want_report and progs:
+            res.add(req + " #reports", str(len(bests)), str(len(bests)), "at-least-one-report",
+                    (lambda x: "at-least-one-report" if int(x) >= 1 else "no-report-although-an-iteration-completed"))
+        if not has_moves:
+            res.add(req + " #terminal-root", str(len(bests)), str(len(bests)), "no-move-reported",
+                    (lambda x: "no-move-reported" if int(x) == 0 else "move-reported-in-terminal-position"))
+        for ev, line in bests:
+            lreqs.append(f"linecheck {','.join(line) if line else '-'} {fen}")
+            owners.append((req, ev, line, fen))
+    if lreqs:
+        drv, _, _ = wee.run_driver(lreqs, jobs=8)
+        mreqs, mown = [], []
+        for lr, (req, ev, line, fen), (m, sp) in zip(lreqs, owners, drv):
+            res.add(req + " #line " + lr, sp, sp, "legal", lambda x: x)
+            if mate_oracle and ev >= 10000 and line:
+                mreqs.append(f"matecheck {ev} {line[0]} {fen}")
+                mown.append(req)
+        if mreqs:
+            drv, _, _ = wee.run_driver(mreqs, jobs=12)
+            for mr, req, (m, sp) in zip(mreqs, mown, drv):
+                ok = sp in ("sound", "claim-too-deep-for-oracle")
+                res.add(req + " #mate " + mr, sp, sp, "sound", (lambda x, ok=ok: "sound" if ok else x))
+                res.tag("mate_claims_" + sp)
+
+
+def has_moves_map(fens):
+    outs, _, _ = wee.run_driver(["moves " + f for f in fens], jobs=4)
+    return {f: not m.startswith("0") for f, (m, s) in zip(fens, outs)}
+
+
+def exact_searches(res, reqs):
+    """single-worker searches: the real event sequence must equal the model's prediction"""
+    impl, rc, err = wee.run_lines_parallel(wee.harness_path(), reqs, jobs=8)
+    drv, rc2, err2 = wee.run_driver(reqs, jobs=14)
+    for r, i, (m, s) in zip(reqs, impl, drv):
+        res.add(r, i, m, "-", None)
+    return impl
+
+
+def c19(res, tier, seed, deep):
+    rnd = random.Random(seed)
+    n = 60 if tier == "thorough" else (24 if deep else 10)
+    fens = rnd.sample(positions(seed + 19, 400), n)
+    reqs = []
+    for f in fens:
+        sd = rnd.getrandbits(32)
+        for d in (1, 2, 3):
+            reqs.append(f"search {sd} {d} 1 - 4 64 0 {f}")
+    for f in rnd.sample(MIDGAME, 2):
+        reqs.append(f"search {rnd.getrandbits(32)} 3 1 - 4 256 0 {f}")
+    if tier == "thorough":
+        for f in fens[:12]:
+            reqs.append(f"search {rnd.getrandbits(32)} 4 1 - 8 256 0 {f}")
+    run1 = exact_searches(res, reqs)
+    # same process twice, and a fresh process
+    run2, _, _ = wee.run_lines(wee.harness_path(), reqs + reqs)
+    run3, _, _ = wee.run_lines_parallel(wee.harness_path(), reqs, jobs=4)
+    for k, r in enumerate(reqs):
+        a, b, c, d = run1[k], run2[k], run2[k + len(reqs)], run3[k]
+        same = a == b == c == d
+        res.add(r + " #repeat", a, a, "same", (lambda x, same=same, b=b, c=c, d=d: "same" if same else f"differs: {b[:80]} / {c[:80]} / {d[:80]}"))
+    # public entry point (one worker below depth 3): repeated runs, fresh memory (1 GiB table each)
+    pubs = [f"searchpub {rnd.getrandbits(32)} {d} {f}" for f in fens[: (6 if tier == 'thorough' else 2)] for d in (1, 2, 3)]
+    p1, _, _ = wee.run_lines(wee.harness_path(), pubs)
+    p2, _, _ = wee.run_lines(wee.harness_path(), pubs)
+    for r, a, b in zip(pubs, p1, p2):
+        res.add(r + " #repeat", a, a, "same", (lambda x, a=a, b=b: "same" if a == b else f"differs: {b[:120]}"))
+    return "legal positions from play; seeds; depth limits 1-3 (thorough: 4) with an explicit single worker through the hook: the real StatusEvent sequence (lines, evaluations, node counts, table entries) must equal the Lean model's prediction exactly, be identical when repeated in one process and in a fresh process; depth limits 1-3 through the public Searcher::analyze repeated across processes"
+
+
+def related_variants(f, rnd):
+    """positions that differ only in castling rights / en-passant state"""
+    p = f.split(" ")
+    out = []
+    if p[2] != "-":
+        out += [v for v in rights_variants(f, rnd) if v != f]
+    if p[3] != "-":
+        out.append(" ".join(p[:3] + ["-"] + p[4:]))
+    return out
+
+
+def c03(res, tier, seed, deep):
+    rnd = random.Random(seed)
+    n = 80 if tier == "thorough" else (24 if deep else 10)
+    pool = positions(seed + 23, 500)
+    hm0 = has_moves_map(pool)
+    pool = [f for f in pool if hm0.get(f)]
+    fens = rnd.sample(pool, n)
+    hm = None
+    # (1) single worker, exact
+    reqs = [f"search {rnd.getrandbits(32)} {rnd.choice([1, 2, 3])} 1 - {rnd.choice([1, 2, 4])} {rnd.choice([4, 64])} 0 {f}" for f in fens]
+    # (2) histories: searches sharing one artifact over positions differing only in rights / ep
+    seqs = []
+    castling = [f for f in pool if f.split(" ")[2] != "-" or f.split(" ")[3] != "-"]
+    for f in rnd.sample(castling, min(len(castling), n // 2)):
+        vs = related_variants(f, rnd)
+        if not vs:
+            continue
+        chain = [f] + rnd.sample(vs, min(len(vs), 2)) + [f]
+        seqs.append(f"searchseq {rnd.getrandbits(32)} {rnd.choice([1, 2])} {rnd.choice([2, 16])} 1 {len(chain)} " +
+                    " ".join(f"{rnd.choice([2, 3])} - {c.replace(' ', '_')}" for c in chain))
+    seqs.append("searchseq 7 1 64 1 2 4 - 4k3/p6p/Pp4pP/1Pp2pP1/2Pp1P2/3P4/8/4K2R_w_K_-_0_1 4 - 4k3/p6p/Pp4pP/1Pp2pP1/2Pp1P2/3P4/8/4K2R_w_-_-_0_1")
+    impl = exact_searches(res, reqs + seqs)
+    allf = set(fens)
+    for sreq in seqs:
+        t = sreq.split(" ")
+        for i in range(int(t[5])):
+            allf.add(t[8 + 3 * i].replace("_", " "))
+    hm = has_moves_map(sorted(allf))
+    items = []
+    for r, o in zip(reqs, impl[:len(reqs)]):
+        f = " ".join(r.split(" ")[8:])
+        items.append((r, f, o, hm.get(f, True)))
+    for r, o in zip(seqs, impl[len(reqs):]):
+        t = r.split(" ")
+        outs = o.split(" | ") if o not in ("panic", "<no-output>") else [o] * int(t[5])
+        for i in range(int(t[5])):
+            f = t[8 + 3 * i].replace("_", " ")
+            items.append((r + f" #search{i}", f, outs[i] if i < len(outs) else "<no-output>", hm.get(f, True)))
+    # (3) several real worker threads (any interleaving the machine produces), fresh and reused memory
+    mreqs = []
+    for f in rnd.sample(fens, max(4, n // 3)):
+        mreqs.append(f"search {rnd.getrandbits(32)} {rnd.choice([2, 3, 4])} {rnd.choice([2, 4, 8, 32])} - {rnd.choice([1, 4])} {rnd.choice([2, 64])} 0 {f}")
+    for sreq in rnd.sample(seqs, min(len(seqs), max(2, n // 4))):
+        t = sreq.split(" ")
+        t[4] = str(rnd.choice([2, 8, 32]))
+        mreqs.append(" ".join(t))
+    mout, _, _ = wee.run_lines_parallel(wee.harness_path(), mreqs, jobs=4)
+    for r, o in zip(mreqs, mout):
+        res.evaluations += 0
+        t = r.split(" ")
+        if t[0] == "search":
+            f = " ".join(t[8:])
+            items.append((r, f, o, hm.get(f, True)))
+        else:
+            outs = o.split(" | ") if o not in ("panic", "<no-output>") else [o] * int(t[5])
+            for i in range(int(t[5])):
+                f = t[8 + 3 * i].replace("_", " ")
+                items.append((r + f" #search{i}", f, outs[i] if i < len(outs) else "<no-output>", hm.get(f, True)))
+        res.tag("multi_worker_runs")
+    check_lines(res, "C03", items)
+    return "searches through the hook on legal positions with a legal move: (1) one worker, depths 1-3, tiny to small tables (so buckets overflow) — exact event-sequence equality with the Lean model; (2) chains of searches sharing one artifact over positions that differ only in castling rights / en-passant state (incl. the former illegal-castling witness); (3) 2-32 real worker threads, fresh and reused memory; spec: every reported line is non-empty and legal move by move per the mailbox rules, at least one report per search that completed an iteration"
+
+
+def c04(res, tier, seed, deep):
+    rnd = random.Random(seed)
+    pool = positions(seed + 29, 400)
+    hm = None
+    items = []
+    # (a) terminal roots end normally and report no move; depth limits incl. none
+    # mate by queen, stalemate, back-rank mate, stalemate in the corner, fool's mate
+    terminal = ["7k/6Q1/6K1/8/8/8/8/8 b - - 0 1", "7k/5Q2/6K1/8/8/8/8/8 b - - 0 1", "3R2k1/5ppp/8/8/8/8/8/4K3 b - - 0 1",
+                "K7/8/8/8/8/8/5Q2/7k b - - 0 1", "rnb1kbnr/pppp1ppp/8/4p3/6Pq/5P2/PPPPP2P/RNBQKBNR w KQkq - 1 3"]
+    reqs = []
+    for f in terminal:
+        for d in ("1", "2", "5", "-"):
+            reqs.append(f"search {rnd.getrandbits(32)} {d} 1 - 2 16 0 {f}")
+    # (b) depth-limited searches finish by themselves (one worker exact)
+    n = 40 if tier == "thorough" else (16 if deep else 6)
+    for f in rnd.sample(pool, n):
+        reqs.append(f"search {rnd.getrandbits(32)} {rnd.choice([1, 2, 3])} 1 - 2 64 0 {f}")
+    # (c) Stop at a counted instant: the k-th poll of the flag (every 10000 counted nodes)
+    cn = 10 if tier == "thorough" else (4 if deep else 3)
+    for f in rnd.sample(MIDGAME, min(len(MIDGAME), cn)):
+        k = rnd.choice([0, 0, 1])
+        reqs.append(f"search {rnd.getrandbits(32)} {rnd.choice(['-', '6'])} 1 {k} 4 256 0 {f}")
+    impl = exact_searches(res, reqs)
+    hm = has_moves_map(sorted(set(" ".join(r.split(" ")[8:]) for r in reqs)))
+    for r, o in zip(reqs, impl):
+        f = " ".join(r.split(" ")[8:])
+        cancelled = r.split(" ")[4] != "-"
+        items.append((r, f, o, hm.get(f, True)))
+    check_lines(res, "C04", items, want_report=False)
+    # (d) several workers with Stop at a counted poll
+    mreqs = [f"search {rnd.getrandbits(32)} - {rnd.choice([2, 8])} {rnd.choice([0, 3])} 4 256 0 {f}" for f in rnd.sample(MIDGAME, 2)]
+    mout, _, _ = wee.run_lines_parallel(wee.harness_path(), mreqs, jobs=2)
+    check_lines(res, "C04", [(r, " ".join(r.split(" ")[8:]), o, True) for r, o in zip(mreqs, mout)], want_report=False)
+    # (e) public API under wall-clock Stop: join latency, receiver kept or dropped, repeated Stop, artifact reusable
+    sn = 40 if tier == "thorough" else (12 if deep else 6)
+    sreqs = []
+    cand = MIDGAME + rnd.sample(pool, 6) + terminal[:2]
+    for _ in range(sn):
+        f = rnd.choice(cand)
+        sreqs.append(f"stoptest {rnd.getrandbits(32)} {rnd.choice(['-', '-', '3', '50'])} {rnd.choice([0, 0, 5, 40, 150, 400])} {rnd.choice([0, 1])} {rnd.choice([1, 1, 3])} {f}")
+    sout, _, _ = wee.run_lines(wee.harness_path(), sreqs, timeout=3600)
+    worst = 0
+    for r, o in zip(sreqs, sout):
+        m = re.match(r"joined latency_ms=(\d+) bests=(\d+) lines_nonempty=(\w+) artifact_reusable=(\w+) has_moves=(\w+)", o)
+        if m:
+            worst = max(worst, int(m.group(1)))
+            ok = int(m.group(1)) < 5000 and m.group(3) == "true" and m.group(4) == "true" and not (m.group(5) == "false" and int(m.group(2)) > 0)
+            res.add(r, o, o, "stops-promptly", (lambda x, ok=ok: "stops-promptly" if ok else x))
+        else:
+            res.add(r, o, o, "stops-promptly", lambda x: x)
+    res.tags["worst_join_latency_ms"] = worst
+    return "through the hook: terminal roots (mate, stalemate) with depth limits 1, 2, 5 and none; depth-limited one-worker searches (exact equality with the model); Stop at the k-th poll of the flag with and without depth limit, one worker exact, several workers; through the public API: wall-clock Stop after 0-400 ms, receiver kept or dropped, Stop repeated, returned artifact fed to a new search; spec: ends normally (no panic, joins within 5 s), no move reported for a terminal root, every reported line legal"
+
+
+def mate_positions(seed, n, limit):
+    rc, out, err = wee.run([wee.DRIVER, "mates", str(seed), str(n), str(limit)], timeout=3600)
+    res = []
+    for l in out.split("\n"):
+        if l.strip():
+            d, keep, fen = l.split(" ", 2)
+            res.append((int(d), int(keep), fen))
+    return res
+
+
+def c06(res, tier, seed, deep):
+    rnd = random.Random(seed)
+    n = 120 if tier == "thorough" else (40 if deep else 16)
+    mates = mate_positions(seed, n, 5 if tier == "thorough" else 3)
+    reqs, meta = [], []
+    for d, keep, f in mates:
+        for dd in (d, d + 1, d + 2):
+            reqs.append(f"search {rnd.getrandbits(32)} {dd} 1 - 2 64 0 {f}")
+            meta.append((d, f))
+    impl = exact_searches(res, reqs)
+    items = [(r, f, o, True) for r, (d, f), o in zip(reqs, meta, impl)]
+    # several real workers
+    mreqs, mmeta = [], []
+    for d, keep, f in rnd.sample(mates, max(4, len(mates) // 3)):
+        mreqs.append(f"search {rnd.getrandbits(32)} {d + rnd.choice([0, 1, 2])} {rnd.choice([2, 4, 16, 32])} - 2 64 0 {f}")
+        mmeta.append((d, f))
+    mout, _, _ = wee.run_lines_parallel(wee.harness_path(), mreqs, jobs=4)
+    items += [(r, f, o, True) for r, (d, f), o in zip(mreqs, mmeta, mout)]
+    # completeness: the final report must be a winning terminal evaluation
+    for (r, f, o, _), (d, _f) in zip(items, meta + mmeta):
+        bests, _ = parse_events(o)
+        final = bests[-1][0] if bests else None
+        res.add(r + " #complete", str(final), str(final), "mate-found",
+                (lambda x, final=final: "mate-found" if final is not None and final >= 10000 else f"forced mate in {d} plies not reported: final evaluation {final}"))
+    # soundness on ordinary positions too: any winning terminal claim is checked by the oracle
+    oreqs = [f"search {rnd.getrandbits(32)} 3 1 - 2 64 0 {f}" for f in rnd.sample(positions(seed + 31, 300), 10 if tier == "quick" else 40)]
+    oimpl = exact_searches(res, oreqs)
+    items += [(r, " ".join(r.split(" ")[8:]), o, True) for r, o in zip(oreqs, oimpl)]
+    check_lines(res, "C06", items, want_report=False)
+    res.tags["mate_positions"] = len(mates)
+    res.tags["mate_distances"] = str(sorted(set(d for d, k, f in mates)))
+    return "few-men positions in which an exhaustive solver (complete tree to n plies over the legal-move relation) finds a forced mate in n <= 3 (thorough: 5) plies; searches with fresh memory at depth n, n+1, n+2 with one worker (exact equality with the model) and 2-32 real workers; spec: the final report is a winning terminal evaluation, the claim is confirmed by the solver within the ply count encoded in the score, and the first move keeps the mate; winning claims on ordinary positions are checked the same way"
+
+
+def c17(res, tier, seed, deep):
+    rnd = random.Random(seed)
+    n = 150 if tier == "thorough" else (60 if deep else 24)
+    mates = [m for m in mate_positions(seed + 3, n, 3) if m[1] >= 2]
+    kreqs = [f"matekeep {d} {f}" for d, k, f in mates]
+    drv, _, _ = wee.run_driver(kreqs, jobs=8)
+    reqs, meta = [], []
+    for (d, k, f), (m, sp) in zip(mates, drv):
+        keeps = [t.split(":") for t in sp.split(" ") if ":" in t]
+        if len(keeps) < 2:
+            continue
+        for raw, succ in rnd.sample(keeps, min(len(keeps), 2)):
+            for dd in (d, d + 2):
+                reqs.append(f"search {rnd.getrandbits(32)} {dd} 1 - 2 64 1 {succ} {f}")
+                meta.append((d, raw, f))
+    impl = exact_searches(res, reqs)
+    mreqs, mmeta = [], []
+    for r, mt in rnd.sample(list(zip(reqs, meta)), min(len(reqs), max(3, len(reqs) // 4))):
+        t = r.split(" ")
+        t[3] = str(rnd.choice([2, 8, 32]))
+        mreqs.append(" ".join(t))
+        mmeta.append(mt)
+    mout, _, _ = wee.run_lines_parallel(wee.harness_path(), mreqs, jobs=4)
+    items = []
+    for r, (d, raw, f), o in list(zip(reqs, meta, impl)) + list(zip(mreqs, mmeta, mout)):
+        items.append((r, f, o, True))
+        bests, _ = parse_events(o)
+        final = bests[-1] if bests else None
+        def view(x, final=final, raw=raw, d=d):
+            if final is None or final[0] < 10000:
+                return f"no winning terminal evaluation although another first move mates in {d}: {final}"
+            if final[1] and final[1][0] == raw:
+                return "the repeating move was chosen"
+            return "wins-without-repeating"
+        res.add(r + " #avoid-repetition", str(final), str(final), "wins-without-repeating", view)
+    check_lines(res, "C17", items, want_report=False)
+    res.tags["positions_with_two_mating_moves"] = len(mates)
+    return "few-men positions with a forced mate in <= 3 plies and at least two first moves that keep it (exhaustive solver); for each, the position after one of those moves is recorded in the artifact's history through the hook; searches at depth n and n+2, one worker (exact equality with the model) and 2-32 workers; spec: the final report is a winning terminal evaluation whose first move is not the recorded (repeating) one and keeps the mate"
+
+
 def ray_mask(sq_, dirs):
     m = 0
     f0, r0 = sq_ % 8, sq_ // 8
@@ -713,6 +1029,11 @@ def cbor_ok(tok, raw):
 CHECKS = {
     "C01": (c01, ["movegen", "moves", "state", "board", "attacks", "common"]),
     "C02": (c02, ["state", "moves", "board", "movegen"]),
+    "C03": (c03, ["searcher", "hasher", "state", "eval", "movegen"]),
+    "C04": (c04, ["searcher", "uci", "eval"]),
+    "C06": (c06, ["searcher", "eval", "eval_squares", "eval_worths", "eval_edge", "eval_pawns"]),
+    "C17": (c17, ["searcher", "hasher"]),
+    "C19": (c19, ["searcher", "eval", "movegen"]),
     "C05": (c05, ["eval", "eval_squares", "eval_worths", "eval_edge", "eval_pawns", "board"]),
     "C13": (c13, ["eval", "eval_squares", "eval_worths", "eval_edge", "eval_pawns"]),
     "C08": (c08, ["hasher", "state", "board"]),
